@@ -1,11 +1,11 @@
 package main
 
 import (
-	"time"
 	"encoding/json"
 	"fmt"
 	"math"
 	"strings"
+	"time"
 	"unicode/utf8"
 
 	"github.com/php-any/origami/data"
@@ -362,17 +362,17 @@ func show(v data.Value) string {
 // ---- worker ---------------------------------------------------------------------------------------
 
 type rec struct {
-	Kind    string         `json:"kind"` // "count" | "fail" | "sample" | "note"
-	Fam     string         `json:"fam,omitempty"`
-	N       int64          `json:"n,omitempty"`
-	Calls   int64          `json:"calls,omitempty"`
-	Key     string         `json:"key,omitempty"`
-	Clause  string         `json:"clause,omitempty"`
-	Case    any            `json:"case,omitempty"`
-	Detail  string         `json:"detail,omitempty"`
-	Size    int            `json:"size,omitempty"`
-	Count   int64          `json:"count,omitempty"`
-	Ms      int64          `json:"ms,omitempty"`
+	Kind    string           `json:"kind"` // "count" | "fail" | "sample" | "note"
+	Fam     string           `json:"fam,omitempty"`
+	N       int64            `json:"n,omitempty"`
+	Calls   int64            `json:"calls,omitempty"`
+	Key     string           `json:"key,omitempty"`
+	Clause  string           `json:"clause,omitempty"`
+	Case    any              `json:"case,omitempty"`
+	Detail  string           `json:"detail,omitempty"`
+	Size    int              `json:"size,omitempty"`
+	Count   int64            `json:"count,omitempty"`
+	Ms      int64            `json:"ms,omitempty"`
 	Outcome map[string]int64 `json:"outcome,omitempty"`
 }
 
